@@ -259,6 +259,10 @@ Definition rfa_match_x (tol : Qc) (m : res (list Qc * list Qc)) (ox : list Qc) (
                         arr += 7.5
                 xs2, ys2 = cls_of(c["strategy"])(np.array(c["x"], dtype=float), np.array(c["y"], dtype=float), c["n"], **kwargs_of(c)).rfa()
                 o["repeatable"] = bool((np.array(xs2, dtype=float).tobytes(), np.array(ys2, dtype=float).tobytes()) == first)
+                # ... and the SAME strategy object asked again (after the caller's in-place edit of what it returned the first time)
+                xs3, ys3 = inst.rfa()
+                if (np.array(xs3, dtype=float).tobytes(), np.array(ys3, dtype=float).tobytes()) != first:
+                    o["repeatable"] = "same-object"
             except Exception as e:
                 o["repeatable"] = "raised %s" % exn_name(e)
             return o
@@ -365,7 +369,8 @@ Definition rfa_match_x (tol : Qc) (m : res (list Qc * list Qc)) (ox : list Qc) (
             if a <= n:
                 self.window_oracle(c, o, a, fail, tol)
         if o.get("repeatable", True) is not True:
-            fail("C04", "history", "the identical call, repeated after the first result was edited in place by the caller, gave another result (%s)" % o.get("repeatable"))
+            for p_ in ("C04", "C05", "C06"):      # (whichever property the unit runs for: a recreation is a function of its arguments)
+                fail(p_, "history", "the identical call, repeated after the first result was edited in place by the caller, gave another result (%s)" % o.get("repeatable"))
         return F
 
     def window_oracle(self, c, o, a, fail, tol):
